@@ -102,7 +102,7 @@ func partsExistWhenEmitted(ti *mon.TraceIndex, rec string) []mon.Problem {
 func c19(args []string) {
 	c := chk.New("C19", "exploration", args)
 	c.Build(false)
-	c.Rule("every bundled component is placed between sources and recorders / consuming tasks and compared with a reference function: FileCombinator and ParamCombinator with 1-4 ports and stream lengths 0..B+1 from independent upstreams (B in {1,3}) and 0..B from a shared upstream (parameter values include the empty string and a blank) - the multiset of aligned tuples (i-th item of every out-port) must equal the Cartesian product, each once; IPSelectorSync with every predicate outcome pattern over up to 6 aligned tuples; FileSplitter over files of 0..12 lines (some lines 5 000 and 20 000 bytes long, percent signs and tabs in the text) (with and without trailing newline) x 1..5 lines per split - parts concatenate back to the input, no part longer than the limit; Concatenator (single upstream: exact arrival order; fan-in: arrival order as recorded; GroupByTag) - output == every input's content plus newline once in arrival order; FileSource / ParamSource / FileToParamsReader (incl. last line without newline, empty lines, lines that begin or end with blanks / tabs) / CommandToParams - emitted == given / read, in order; FileGlobber - emitted == an independent matcher over a generated directory tree, per pattern in lexical order (also several patterns of which some match nothing); the recorders stat every item on reception: what a file-emitting component hands downstream must exist at that moment (FileSplitter parts included); Concatenator over 150-210 inputs under a limit of 96 open files; Concatenator with GroupByTag over a stream mixing tagged and untagged files, and over tag values that differ in punctuation only (files identified through the emitted IPs); two or three FileSplitter processes at work at the same time on equally named files in different directories; FileSplitter history: one file split in a first run, then that file plus unsplit ones in a second run. distinct_nontrivial = distinct (component, shape) cases whose comparison was made on >= 1 emitted item or an empty expectation")
+	c.Rule("every bundled component is placed between sources and recorders / consuming tasks and compared with a reference function: FileCombinator and ParamCombinator with 1-4 ports and stream lengths 0..B+1 from independent upstreams (B in {1,3}) and 0..B from a shared upstream (parameter values include the empty string, a blank and values that occur twice in one stream) - the multiset of aligned tuples (i-th item of every out-port) must equal the Cartesian product, each once; IPSelectorSync with every predicate outcome pattern over up to 6 aligned tuples; FileSplitter over files of 0..12 lines (some lines 5 000 and 20 000 bytes long, percent signs and tabs in the text) (with and without trailing newline) x 1..5 lines per split - parts concatenate back to the input, no part longer than the limit; Concatenator (single upstream: exact arrival order; fan-in: arrival order as recorded; GroupByTag) - output == every input's content plus newline once in arrival order; FileSource / ParamSource / FileToParamsReader (incl. last line without newline, empty lines, lines that begin or end with blanks / tabs) / CommandToParams - emitted == given / read, in order; FileGlobber - emitted == an independent matcher over a generated directory tree, per pattern in lexical order (also several patterns of which some match nothing); the recorders stat every item on reception: what a file-emitting component hands downstream must exist at that moment (FileSplitter parts included); Concatenator over 150-210 inputs under a limit of 96 open files; Concatenator with GroupByTag over a stream mixing tagged and untagged files, and over tag values that differ in punctuation only (files identified through the emitted IPs); two or three FileSplitter processes at work at the same time on equally named files in different directories; FileSplitter history: one file split in a first run, then that file plus unsplit ones in a second run. distinct_nontrivial = distinct (component, shape) cases whose comparison was made on >= 1 emitted item or an empty expectation")
 	c.Assume("unequal closing of IPSelectorSync inputs is a documented failure and is not generated", "a trailing empty part after an exact multiple of the line limit is legal")
 	rng := c.Rand("c19")
 	var jobs []*c19Job
@@ -172,6 +172,10 @@ func c19(args []string) {
 								if sh%3 == 1 && len(items) > 0 {
 									// a parameter value may be the empty string (an optional flag) or blank: it is a value like any other
 									items[(sh+i)%len(items)] = []string{"", " ", ""}[(sh/3+i)%3]
+								}
+								if sh%3 == 2 && len(items) >= 3 {
+									// a value that occurs twice in a stream is two values
+									items[2] = items[0]
 								}
 								s.Procs = append(s.Procs, &spec.Proc{Name: sn, Kind: spec.KParamSource, Values: items})
 							} else {
